@@ -131,7 +131,15 @@ def check_numeric(ctx: Ctx, rr: RuleResult, modules: Iterable[str], decoder_exem
                 continue
             ok_a = a is not None and a.within(-F53, F53)
             ok_b = kind == "float" or (b is not None and b.within(-F53, F53))
-            if ok_a and ok_b:
+            truncated = kind == "float"
+            p_ = getattr(node, "_parent", None)
+            while p_ is not None and not isinstance(p_, ast.stmt):
+                if isinstance(p_, ast.Call) and unparse(p_.func) in ("int", "math.trunc", "math.floor", "math.ceil"):
+                    truncated = True
+                p_ = getattr(p_, "_parent", None)
+            if ok_a and ok_b and not truncated:
+                rr.fail(where, f"true division on an integer quantity whose float result is used as it is: `{txt}` (no int()/trunc around it: the value is rounded, not truncated, by whatever consumes it)", f"{fn.mod.rel}:{node.lineno}", rule_clause="float discipline")
+            elif ok_a and ok_b:
                 rr.ok({"site": where, "op": txt, "why": f"operands bounded below 2**53: {a} / {b}"})
             else:
                 rr.fail(where, f"float arithmetic on an integer quantity not bounded below 2**53: `{txt}` (operands {a}, {b})", f"{fn.mod.rel}:{node.lineno}", rule_clause="float discipline")
